@@ -560,3 +560,43 @@ func sortedKeys(m map[string]int) []string {
 	sort.Strings(ks)
 	return ks
 }
+
+// AssertPossible checks that cond is satisfiable together with the path
+// condition ("the two values are not forced to be equal"): unsat is a violation.
+// It adds nothing to the path condition. In concrete mode (and for a concrete
+// cond) it fails iff cond is false.
+func (c *Ctx) AssertPossible(cond *smt.Term, label, class, where string) {
+	c.res.Asserts++
+	if cond.IsTrue() {
+		return
+	}
+	if c.pos < len(c.prefix) {
+		return // decided on a previous visit of this prefix
+	}
+	viol := func() {
+		m := c.model
+		if m == nil {
+			_, m = c.check(nil, true)
+		}
+		c.res.Violations = append(c.res.Violations, Violation{Label: label, Class: class, Model: m,
+			Inputs: c.snapshotInputs(m), Path: append([]Decision{}, c.decs...), Where: where})
+		if c.res.Status == "ok" {
+			c.res.Status = "violation"
+		}
+	}
+	if cond.IsFalse() {
+		viol()
+		return
+	}
+	if mv, ok := c.evalModel(cond); ok && mv != 0 {
+		return
+	}
+	switch v, _ := c.check(cond, false); v {
+	case smt.Sat:
+	case smt.Unsat:
+		viol()
+	default:
+		c.res.Status = "unknown"
+		c.res.Detail = "assert-possible " + label + ": solver unknown at " + where
+	}
+}
